@@ -1,0 +1,14 @@
+//go:build verif
+
+package badgerstore
+
+// VerifHook is called at every simulation point when set. It is only present
+// in builds with the verif tag and is used by the deterministic simulator to
+// interleave goroutines and to take crash images of the database.
+var VerifHook func(point, arg string)
+
+func simAt(point, arg string) {
+	if h := VerifHook; h != nil {
+		h(point, arg)
+	}
+}
